@@ -452,7 +452,7 @@ MUTANTS = [
     Mutant("twin-mul-commute", UO, "Unit.__mul__", "self.base_value * u.base_value", "u.base_value * self.base_value", (), benign=True),
     Mutant("twin-rename-ratio", UO, "_get_conversion_factor", "ratio", "rr", (), count=4, benign=True),
     Mutant("twin-row-float-spelling", LUT, None, '("bar", (1.0e5,', '("bar", (100000.0,', (), benign=True),
-    Mutant("modify-purges-derived-late", REG, "UnitRegistry.modify", "        self._forget_prefixed(symbol)\n        if hasattr(base_value, \"in_base\"):", "        if hasattr(base_value, \"in_base\"):", ("C02-R2",), more=[(REG, "UnitRegistry.modify", "        # any cached unit string (prefixed or compound) may mention the symbol\n", "        self._forget_prefixed(symbol)\n", 1)]),
+    Mutant("modify-purges-derived-late", REG, "UnitRegistry.modify", "        self._forget_prefixed(symbol)\n        self.lut[symbol] = (float(base_value), new_dimensions) + self.lut[symbol][2:]\n", "        self.lut[symbol] = (float(base_value), new_dimensions) + self.lut[symbol][2:]\n        self._forget_prefixed(symbol)\n", ("C02-R2",)),
     Mutant("walk-float-exponent", UO, "_get_unit_data_from_expr", "conv = float(unit_data[0] ** power)", "conv = float(unit_data[0] ** float(power))", (), benign=True),
     Mutant("define-unit-default-system", UO, "define_unit", 'value.in_base(unit_system="mks")', "value.in_base()", ("C02-R5",)),
     Mutant("define-unit-in-mks", UO, "define_unit", 'value.in_base(unit_system="mks")', "value.in_mks()", (), benign=True),
